@@ -38,6 +38,8 @@ def run(ctx):
         corr_repeated.grid(ctx, obs[0])   # exhaustive index/slice grid through the same observer (one driver batch)
     session.finish_observers(ctx, obs)
     slicegrid.run(ctx, ['frame'])
+    import slotgrid
+    slotgrid.run(ctx, ['frame'])
 
 
 def search(ctx, hints):
